@@ -1,13 +1,15 @@
 #!/bin/bash
 # usage: tools/try_mutant.sh <dir-with-patch.diff> <ID> [tier]
-# applies the patch to /repo, runs the check, reverts. Prints the verdict.
+# Runs check <ID> against a scratch worktree of /repo with the patch applied (VERIF_REPO_SRC override);
+# /repo itself and the committed evidence are not touched. Prints the verdict.
 d="$(realpath "$1")"; id="$2"; tier="${3:-quick}"
-cd /repo || exit 2
-if [ -n "$(git status --porcelain)" ]; then echo "/repo not clean"; exit 2; fi
-git apply "$d/patch.diff" || { echo "PATCH DOES NOT APPLY"; exit 2; }
+wt=$(mktemp -d /tmp/mut/try.XXXXXX)
+git -C /repo worktree add --detach "$wt" HEAD -q || exit 2
+cleanup() { git -C /repo worktree remove --force "$wt" 2>/dev/null; rm -rf "$wt" "$wt.ev"; }
+trap cleanup EXIT
+git -C "$wt" apply "$d/patch.diff" || { echo "PATCH DOES NOT APPLY"; exit 2; }
+mkdir -p "$wt.ev"
 cd /verif
-out=$(./check "$id" --tier "$tier" 2>&1 | grep -v WARNING)
-rc=$?
-echo "$out" | grep -E "VIOLATION|signature|summary|ENGINE|tier=" | head -12
-git -C /repo checkout -- . 
+out=$(VERIF_REPO_SRC="$wt/src" VERIF_EVIDENCE_DIR="$wt.ev" VERIF_REPLAY_DIR="$wt.ev" ./check "$id" --tier "$tier" 2>&1 | grep -v WARNING)
+echo "$out" | grep -E "VIOLATION|signature|summary|ENGINE|tier=" | cut -c1-500 | head -12
 if echo "$out" | grep -q "^VIOLATION"; then echo "==> CAUGHT ($d by $id $tier)"; else echo "==> MISSED ($d by $id $tier)"; fi
